@@ -320,6 +320,22 @@ func instrumentPackage(p *packages.Package, simPath string, callable *types.Inte
 			switch n := c.Node().(type) {
 			case *ast.CallExpr:
 				if pp, name, ok := pkgFunc(info, n.Fun); ok {
+					if pp == "maps" || pp == "golang.org/x/exp/maps" {
+						if to, ok := map[string]string{"Keys": "MapKeys", "Values": "MapValues", "All": "MapAll"}[name]; ok && len(n.Args) == 1 && !(pp != "maps" && name == "All") {
+							if pp != "maps" {
+								to += "Slice"
+							}
+							siteN++
+							site := fmt.Sprintf("%s#%d", rel, siteN)
+							rep.RangeSites = append(rep.RangeSites, fmt.Sprintf("%s (line %d, %s.%s)", site, fset.Position(n.Pos()).Line, pp, name))
+							n.Fun = simSel(to)
+							n.Args = append([]ast.Expr{strLit(site)}, n.Args...)
+							rep.Rewrites[pp+"."+name]++
+							usedSim = true
+						} else if name == "DeleteFunc" {
+							rep.Warnings = append(rep.Warnings, fmt.Sprintf("%s: %s.%s walks a map in the runtime's order", fset.Position(n.Pos()), pp, name))
+						}
+					}
 					if pp == "fmt" {
 						if to, ok := printToFprint[name]; ok {
 							n.Fun.(*ast.SelectorExpr).Sel = ast.NewIdent(to)
@@ -370,6 +386,12 @@ func instrumentPackage(p *packages.Package, simPath string, callable *types.Inte
 						usedSim = true
 					} else if name == "After" || name == "Tick" || name == "NewTimer" || name == "NewTicker" || name == "AfterFunc" {
 						rep.Unmodelled = append(rep.Unmodelled, fmt.Sprintf("%s: time.%s", fset.Position(n.Pos()), name))
+					}
+				case "flag":
+					if name == "Parse" {
+						c.Replace(simSel("FlagParse"))
+						rep.Rewrites["flag.Parse"]++
+						usedSim = true
 					}
 				case "math/rand", "math/rand/v2":
 					if obj := info.Uses[n.Sel]; obj != nil {
